@@ -10,6 +10,20 @@ TABLES = {
     "t3": [("a", INT), ("b", INT)],
 }
 INTS = [None, 0, 1, 2, 3]
+# SQL functions (CREATE FUNCTION ... LANGUAGE SQL): arity, body, and the body as an expression over the arguments
+FUNCS = {
+    "f_add": (2, "select $1 + $2", lambda a, b: ("bin", "+", a, b, INT)),
+    "f_inc": (1, "select $1 + 1", lambda a: ("bin", "+", a, ("ci", 1), INT)),
+    "f_max": (2, "select case when $1 > $2 then $1 else $2 end", lambda a, b: ("case", ("bin", ">", a, b, BOOL), a, b, INT)),
+    "f_nz": (1, "select case when $1 is null then 0 else $1 end",
+             lambda a: ("case", ("isnull", a, False, BOOL), ("ci", 0), a, INT)),
+}
+
+
+def prelude(sql):
+    """CREATE FUNCTION statements for the functions a statement calls."""
+    return [f"create function {fn}({', '.join(['int'] * n)}) returns int language sql as '{body}'"
+            for fn, (n, body, _) in sorted(FUNCS.items()) if fn + "(" in sql]
 STRS = [None, "", "a", "b", "ab"]
 
 
@@ -88,6 +102,11 @@ class Gen:
                 a, c, _ = r.choice(self.cols(outer, INT))
                 return ("col", a, c, INT)
             return ("ci", r.choice([0, 1, 2, 3]))
+        if self.f.get("udf") and p > 0.7 and r.random() < 0.5:
+            # a call of a SQL function: by definition the body with the arguments in the place of $1, $2
+            fn = r.choice(sorted(FUNCS))
+            args = tuple(self.int_expr(scope, outer, d - 1) for _ in range(FUNCS[fn][0]))
+            return ("udf", fn, ("lst",) + args + (INT,), INT)
         if p < 0.8:
             ops = ["+", "-", "*", "/", "+", "-"] + (["%"] if self.f["mod"] else [])
             op = r.choice(ops)
@@ -408,6 +427,8 @@ def desugar(e):
         return ("not", core, BOOL) if neg else core
     if k == "nlike":
         return ("not", e[1], BOOL)
+    if k == "udf":
+        return FUNCS[e[1]][2](*e[2][1:-1])
     if k == "casen":
         out = e[2] if e[2] is not None else ("cn", INT)
         for c, v in reversed(e[1]):
@@ -421,7 +442,7 @@ def desugar(e):
     return e
 
 
-SUGAR = ("between", "nlike", "casen", "caseop")
+SUGAR = ("between", "nlike", "casen", "caseop", "udf")
 
 
 def has_col(e):
@@ -497,6 +518,8 @@ def sql_expr(e):
         return f"(not {sql_expr(e[1])})"
     if k == "neg":
         return f"(- {sql_expr(e[1])})"
+    if k == "udf":
+        return f"{e[1]}({', '.join(sql_expr(x) for x in e[2][1:-1])})"
     if k == "castb":
         return f"cast({sql_expr(e[1])} as boolean)"
     if k == "widen":            # an integer of another width: the same value
